@@ -409,11 +409,22 @@ def r5_guards(program, rep):
         if not sites:
             raise AnalysisError("%s no longer calls the wrapped method" %
                                 wrapper)
+        TW = Terms(fn)
         for call in sites:
             node = fl.cfg.node_containing(call)
             facts = fl.facts(node)
+            tfacts = [(plain(t_), p_) for t_, p_ in TW.all_facts(
+                TW.cfg.node_containing(call))]
+
+            def chain_term(text):
+                parts = text.split(".")
+                t_ = ("param", parts[0])
+                for a_ in parts[1:]:
+                    t_ = ("attr", t_, a_)
+                return t_
             for t in tests:
-                rep.check(has_fact(facts, t, False), "C13-R5",
+                rep.check(has_fact(facts, t, False) or
+                          (chain_term(t), False) in tfacts, "C13-R5",
                           "%s:%s.f_" % (MOD, wrapper),
                           "the wrapped call is dominated by the test that "
                           "%s is false" % t,
